@@ -7,7 +7,7 @@
    failing ones included: the two sides then report the same failure).  [of_list l] is a fully
    evaluated list seen as a stream, [collect] is List.Eval/ToSlice. *)
 From P2 Require Import Base.Prelude Sem.Num Sem.Syntax Sem.Ops Sem.Lib Lib.Builtins Lib.ListLib
-  Lib.NumSpec Lib.NumLibProofs Lib.BuiltinsProofs Lib.GroupProofs Lib.StringProofs Lib.MapProofs Lib.MovingProofs Lib.PipelineProofs Run.C07Run Generated.ValueMethods.
+  Lib.NumSpec Lib.NumLibProofs Lib.MergeSortedProofs Lib.BuiltinsProofs Lib.GroupProofs Lib.StringProofs Lib.MapProofs Lib.MovingProofs Lib.PipelineProofs Run.C07Run Generated.ValueMethods.
 From Coq Require Import Permutation Sorted.
 Local Open Scope Z_scope.
 
@@ -447,6 +447,35 @@ Theorem C07_rounding_statics :
     v = VInt (round_z m e) /\ in_int64 (round_z m e) = true).
 Proof. exact (conj floor_ceil_trunc_round_spec (conj static_floor_ceil_trunc_type static_round_type)). Qed.
 
+(* list.merge, the sentence of its description "If the function returns true if a<b holds and both lists
+   are ordered, also the new list is ordered": for every boolean relation ltb the callback decides, the
+   implementation model answers the standard merge - an interleaving (both lists keep their order), hence
+   a permutation of both - and if ltb never holds in both directions and no item of an input is less than
+   its left neighbour, the same is true of the answer.  On a tie the item of the OTHER list goes first *)
+Theorem C07_merge_sorted : forall (f : value -> value -> res value) ltb,
+  (forall a b, f a b = Ok (VBool (ltb a b))) ->
+  forall l1 l2,
+  collect (s_merge f (of_list l1) l2) = Ok (pmerge ltb l1 l2) /\
+  interleave l1 l2 (pmerge ltb l1 l2) /\
+  Permutation (l1 ++ l2) (pmerge ltb l1 l2) /\
+  ((forall a b, ltb a b = true -> ltb b a = false) ->
+   Sorted (not_before ltb) l1 -> Sorted (not_before ltb) l2 -> Sorted (not_before ltb) (pmerge ltb l1 l2)).
+Proof. exact merge_sorted. Qed.
+
+Theorem C07_merge_tie_takes_other : forall ltb a r1 b r2, ltb a b = false ->
+  pmerge ltb (a :: r1) (b :: r2) = b :: pmerge ltb (a :: r1) r2.
+Proof. exact merge_tie_takes_other. Qed.
+
+(* list.eval returns the list unchanged; list.replaceList(f) is f applied to the list *)
+Theorem C07_eval_replaceList :
+  (* list_eval_spec *)
+  (forall l, run_list (of_list l) M_eval [] = Ok (PV (VList l))) /\
+  (* replaceList_spec *)
+  (forall l body,
+     run_list (of_list l) M_replaceList [AF 1 body] = okV (ceval [VList l] body) /\
+     bind (run_list (of_list l) M_replaceList [AF 1 body]) force = spec_list l M_replaceList [AF 1 body]).
+Proof. exact (conj list_eval_spec replaceList_spec). Qed.
+
 (* non-vacuity: a pipeline with a failing callback behind a truncating stage, and the repaired corners *)
 Example C07_nonvacuous_lazy :
   collect (s_top 1 (s_map (fun x => match x with VInt 1 => Ok x | _ => Err None end) (of_list [VInt 1; VInt 2])))
@@ -480,6 +509,16 @@ Example C07_nonvacuous_rounding :
   float_only_static ceil_z [VFloat (FFin (-1) (-1))] = Ok (VFloat FNegZero) /\
   float_only_static floor_z [VFloat (FFin (-1) (-1))] = Ok (VFloat (FFin (-1) 0)).
 Proof. vm_compute. repeat split; reflexivity. Qed.
+Definition C07_int_less (a b : value) : bool := match a, b with VInt x, VInt y => x <? y | _, _ => false end.
+Example C07_nonvacuous_merge :
+  (forall a b, C07_int_less a b = true -> C07_int_less b a = false) /\
+  Sorted (not_before C07_int_less) [VInt 1; VInt 3] /\
+  pmerge C07_int_less [VInt 1; VInt 3] [VInt 2; VInt 3; VInt 4] = [VInt 1; VInt 2; VInt 3; VInt 3; VInt 4].
+Proof.
+  split; [|split; [repeat constructor|reflexivity]].
+  intros a b. destruct a, b; cbn; try discriminate. intros H. apply Z.ltb_lt in H. apply Z.ltb_ge. apply Z.lt_le_incl. exact H.
+Qed.
+
 Print Assumptions C07_methods_match.
 Print Assumptions C07_statics_match.
 Print Assumptions C07_methods_match_sound.
@@ -511,3 +550,6 @@ Print Assumptions C07_toFloat_exact.
 Print Assumptions C07_numeric_statics.
 Print Assumptions C07_static_min_max.
 Print Assumptions C07_rounding_statics.
+Print Assumptions C07_merge_sorted.
+Print Assumptions C07_merge_tie_takes_other.
+Print Assumptions C07_eval_replaceList.
